@@ -20,7 +20,11 @@ Emitted (all `list (string * string)`, sorted unless the order is the fact):
                                                  function parameter other than self/cls (may alias a global),
                                                  (PARAM-WRITE, with the assigned expression; PARAM-CALL for mutator
                                                  methods), PLUS the same through a local that was bound, transitively,
-                                                 to an expression mentioning a global (ALIAS-WRITE / ALIAS-CALL)
+                                                 to an expression mentioning a global (ALIAS-WRITE / ALIAS-CALL),
+                                                 PLUS writes / mutator calls rooted at a module-level function or class
+                                                 name or an imported name (DEF-WRITE / DEF-CALL: function attributes,
+                                                 class attributes), PLUS, in cut_finding, writes / mutator calls through
+                                                 two or more levels below self (SELF-CHAIN-WRITE / SELF-CHAIN-CALL)
   registry_method_writes(Class.method, target)   self-attribute/item writes inside the classes that have a
                                                  module-level instance in the package (ActionNames, …)
   registry_mutator_calls(module:function, text)  every call, from a function body, of a method listed in
@@ -126,6 +130,16 @@ def _root_name(node):
             node = node.func
         else:
             return None
+
+
+def _chain_depth(node):
+    """number of attribute/subscript steps between the root name and the written location:
+    self.a = 1, self.a[k] = 2, self.a.b = 2 …"""
+    d = 0
+    while isinstance(node, (ast.Attribute, ast.Subscript)):
+        d += 1
+        node = node.value
+    return d
 
 
 def _dotted(node):
@@ -426,6 +440,7 @@ def _uses():
             for x in nodes:
                 for ch in ast.iter_child_nodes(x):
                     parent[id(ch)] = x
+            def_names = {q.split(".")[0] for q, _f, _c in m.functions} | {c.split(".")[0] for c in m.classes}
 
             def write_target(t, how, value=None):
                 val = "" if value is None else " := " + _txt(value)[:70]
@@ -456,6 +471,14 @@ def _uses():
                     writes.append((where, f"PARAM-WRITE-{how} {_txt(t)}{pv}"))
                 elif root in tainted:
                     writes.append((where, f"ALIAS-WRITE-{how} {_txt(t)}{val}"))
+                elif root in ("self", "cls"):
+                    # two-level chains  self.<attr>.<attr>… = …  in cut_finding: a write THROUGH an object held by self
+                    # (e.g. self.search_funcs.cost_func = … would hit the process-global SearchFunctions table)
+                    if m.mod.startswith("cut_finding") and _chain_depth(t) >= 2:
+                        writes.append((where, f"SELF-CHAIN-WRITE-{how} {_txt(t)}{val}"))
+                elif root not in bound and root not in params and (root in def_names or root in m.imported or root in m.module_aliases):
+                    # function attributes, class attributes, attributes of imported objects/modules: process-global too
+                    writes.append((where, f"DEF-WRITE-{how} {_txt(t)}{val}"))
 
 
             for x in nodes:
@@ -482,6 +505,12 @@ def _uses():
                         writes.append((where, f"PARAM-CALL {_txt(x.func)}"))
                     elif root in tainted:
                         writes.append((where, f"ALIAS-CALL {_txt(x.func)}"))
+                    elif root in ("self", "cls"):
+                        if m.mod.startswith("cut_finding") and _chain_depth(x.func.value) >= 2:
+                            writes.append((where, f"SELF-CHAIN-CALL {_txt(x.func)}"))
+                    elif root not in bound and root not in params and _chain_depth(x.func.value) >= 1 and (
+                            root in def_names or root in m.imported):
+                        writes.append((where, f"DEF-CALL {_txt(x.func)}"))
 
                 elif isinstance(x, ast.Name) and isinstance(x.ctx, ast.Load) and is_global_name(x.id):
                     p = parent.get(id(x))
